@@ -102,7 +102,7 @@ def parse_msl(text):
 
 
 def functions_defined(text):
-    return set(re.findall(r"^\s*(?:\[\[[^\]]*\]\]\s*)*[\w:<>,\s\*&]+?\b(\w+)\s*\([^;{]*\)\s*\{", text, re.M))
+    return set(re.findall(r"^\s*(?:\[\[[^\]]*\]\]\s*)*[\w:<>,\s\*&]+?\b(\w+)\s*\([^;{]*\)\s*(?::\s*\w+\s*)?\{", text, re.M))
 
 
 def check(case, impl):
